@@ -51,6 +51,10 @@ PROPS = {
              {"checks": 8000, "timeout": 300},
              {"checks": 30000, "shards": 16, "timeout": 1800},
              assumptions=COMMON_ASSUME),
+    "C11": P("TestC11", "exploration",
+             {"checks": 10000, "timeout": 300},
+             {"checks": 40000, "shards": 16, "timeout": 1800},
+             assumptions=COMMON_ASSUME),
 }
 
 TRUST = "Trusted base: Go runtime, net/http, compress/*, google.golang.org/protobuf, rapid, and the harness's own reference wire layer as the reading of the protocol specs. Generated search: absence of violations is evidence over the explored cases only."
@@ -104,6 +108,11 @@ META = {
     "C18": {
         "technique": 'property-based testing (rapid): generated requests of every rejection class and exit path; instrumented handlers (invocation counters, captured context) and gated request body / response writer (calls after return) as oracle',
         "level_text": 'Generated exploration of rejection classes (before and after method resolution) and exit paths (success, pass-through, unknown handler, set-up error, mid-stream error, handler panic); dispatch counts, context cancellation and absence of late I/O are asserted on every case.',
+        "level_note": TRUST,
+    },
+    "C11": {
+        "technique": 'property-based testing (rapid) with hostile structured mutations and raw bytes on both client and backend side; recovered panics attributed by stack frame, watchdog on return, recording ResponseWriter counting response heads and checking Content-Length; thorough adds native coverage-guided fuzzing of the request and response bytes',
+        "level_text": 'Robustness exploration: arbitrary methods, paths, queries, headers and bodies from the client and arbitrary status, headers, grpc-status texts, bodies, write patterns, late writes and panics from the backend; the only assertions are no crash in vanguard, termination, and a frameable response head/body.',
         "level_note": TRUST,
     },
 }
